@@ -130,7 +130,20 @@ func init() {
 	addRule("C19", rule{name: "S-copy", run: ruleSCopyState})
 	// what belongs to one script does not leak into the next (operation count, offset, early-return mark, separator)
 	addRule("C05", rule{name: "S-perscript", run: ruleSPerScript})
+	addRule("C05", rule{name: "T-splice", run: ruleTSplice})
 	addRule("C07", rule{name: "S-perscript", run: ruleSPerScript})
+	// "valid signatures over the signature hash of the script code": the two digest algorithms themselves (as in C02 / C03 / C04)
+	addRule("C06", rule{name: "W-sig", run: ruleWSig})
+	addRule("C06", rule{name: "W-leg", run: ruleWLeg})
+	addRule("C06", rule{name: "G-eff", run: ruleGEffLegacy})
+	addRule("C06", rule{name: "T-vi", run: func(c *Ctx) { ruleTViOnly(c, map[string]bool{"Bytes": true}) }})
+	// both JSON dialects carry the transaction as its hex serialisation: writer and reader layouts of the wire codec
+	addRule("C16", rule{name: "W-tx", run: ruleWTx})
+	addRule("C16", rule{name: "W-rd", run: ruleWRd})
+	addRule("C16", rule{name: "T-vi", run: ruleTVi})
+	// the flows add their change output with Tx.change: what it charges
+	addRule("C20", rule{name: "G-chg", run: ruleGChg})
+	addRule("C18", rule{name: "L-atomic", run: ruleLAtomic})
 	addRule("C13", rule{name: "T-asm", run: ruleTAsmReader})
 	addRule("C15", rule{name: "T-b58", run: ruleTB58})
 	// what a codec function hands back is its own (no buffer shared between calls)
